@@ -70,7 +70,115 @@ def _note(exc: BaseException) -> None:
         seen += 1
 
 
+def _make_exc(q: str) -> BaseException:
+    import importlib
+    m, _, n = q.rpartition(".")
+    cls = getattr(importlib.import_module(m), n)
+    if issubclass(cls, UnicodeDecodeError):
+        return cls("utf-8", b"\xff", 0, 1, "injected")
+    if n == "JSONDecodeError":
+        return cls("injected", "doc", 0)
+    if q == "easynetwork.exceptions.PacketConversionError":
+        return cls("injected")
+    if q == "easynetwork.exceptions.DeserializeError":
+        return cls("injected")
+    return cls("injected")
+
+
+def _injected_serializer(pipeline: str, exc_q: str):
+    """a real serializer whose codec call site `pipeline` raises an instance of `exc_q`, built through PUBLIC
+    extension points only; returns (serializer, valid-looking input bytes, converter or None)"""
+    from easynetwork.serializers.json import JSONDecoderConfig, JSONSerializer
+    from easynetwork.serializers.pickle import PickleSerializer
+    from easynetwork.serializers.wrapper.base64 import Base64EncoderSerializer
+    from easynetwork.serializers.wrapper.compressor import BZ2CompressorSerializer, ZlibCompressorSerializer
+    import pickle as _pickle
+
+    site = pipeline.split("/")[0]
+
+    def boom(*a, **k):
+        raise _make_exc(exc_q)
+
+    from easynetwork.serializers.abc import AbstractPacketSerializer
+
+    class RaisingInner(AbstractPacketSerializer):
+        def serialize(self, packet):
+            return b"x"
+
+        def deserialize(self, data):
+            boom()
+
+    if site == "json.decode":
+        ser = JSONSerializer(decoder_config=JSONDecoderConfig(object_hook=boom), limit=65536, use_lines=True)
+        return ser, (b"{}\n" if not pipeline.endswith("oneshot") else b"{}"), None
+    if site == "pickle.load":
+        class U(_pickle.Unpickler):
+            def load(self):
+                boom()
+        return PickleSerializer(unpickler_cls=U), _pickle.dumps(1), None
+    if site == "filebased.load":
+        class T(sers.ToyFile):
+            def load_from_file(self, file):
+                file.read(1)
+                boom()
+        return T(64), b"\x01a", None
+    if site in ("zlib.decompress", "bz2.decompress"):
+        base = ZlibCompressorSerializer if site.startswith("zlib") else BZ2CompressorSerializer
+
+        class D:
+            eof = False
+            unused_data = b""
+
+            def decompress(self, data):
+                boom()
+
+        class Z(base):
+            def new_decompressor_stream(self):
+                return D()
+        return Z(JSONSerializer()), b"abc", None
+    if site in ("zlib.inner", "bz2.inner"):
+        base = ZlibCompressorSerializer if site.startswith("zlib") else BZ2CompressorSerializer
+        good = base(JSONSerializer()).serialize(1)
+        return base(RaisingInner()), good, None
+    if site == "autosep.inner":
+        good = Base64EncoderSerializer(JSONSerializer()).serialize(1)
+        return Base64EncoderSerializer(RaisingInner()), good + b"\r\n", None
+    if site == "converter":
+        class Cv(sd.WrapConverter):
+            def create_from_dto_packet(self, packet):
+                boom()
+        return sers.build({"k": "line", "newline": "LF", "limit": 64}), b"abc\n", Cv()
+    return None
+
+
+def _run_inject(case: dict) -> list[str]:
+    from easynetwork.protocol import BufferedStreamProtocol, StreamProtocol
+    built = _injected_serializer(case["inject"], case["exc"])
+    if built is None:
+        return ["no-hook"]
+    ser, data, conv = built
+    ep = case["inject"].split("/")[1]
+    try:
+        if ep == "oneshot":
+            DatagramProtocol(ser, conv).build_packet_from_datagram(data.rstrip(b"\r\n") if case["inject"].startswith("autosep") else data)
+        elif ep == "copy":
+            c = StreamDataConsumer(StreamProtocol(ser, conv))
+            c.next(data)
+        else:
+            c = BufferedStreamDataConsumer(BufferedStreamProtocol(ser, conv), 1024)
+            v = memoryview(c.get_write_buffer())
+            v[:len(data)] = data
+            c.next(len(data))
+    except StopIteration:
+        return ["swallowed"]
+    except BaseException as e:  # noqa: BLE001
+        return [f"top {type(e).__module__}.{type(e).__qualname__}"]
+    return ["swallowed"]
+
+
 def run_real(case: dict) -> list[str]:
+    if "inject" in case:
+        return _run_inject(case)
     spec = case["spec"]
     data = bytes.fromhex(case["data"])
     mode = case["mode"]
@@ -155,6 +263,10 @@ def run_real(case: dict) -> list[str]:
 
 
 def model_input(case: dict, real: list[str]):
+    if "inject" in case:
+        if real == ["no-hook"]:
+            return None
+        return f"excflow {case['inject']}", [f"raise {case['exc']}"]
     if case["mode"] == "oneshot":
         return None
     path = "buffered" if case["mode"] == "buffered" else "copy"
@@ -167,12 +279,24 @@ def model_input(case: dict, real: list[str]):
 
 
 def model_post(case: dict, lines: list[str]) -> list[str]:
+    if "inject" in case:
+        return lines
     lines = [ln for ln in lines if not ln.startswith(("held ", "buf ", "room "))]
     out = sd.codec_items(case["spec"], lines)
     return ["pkt" if ln.startswith("pkt ") else ln for ln in out]
 
 
+PARSE = ("top easynetwork.exceptions.StreamProtocolParseError", "top easynetwork.exceptions.DatagramProtocolParseError")
+
+
 def oracle(case: dict, real: list[str]) -> str | None:
+    if "inject" in case:
+        if real == ["no-hook"] or real[0] in PARSE:
+            return None
+        if real == ["swallowed"] and (case["inject"], case["exc"]) in (("filebased.load/copy", "builtins.EOFError"),
+                                                                      ("filebased.load/buffered", "builtins.EOFError")):
+            return None   # EOFError from the file loader = "need more data"
+        return f"{case['exc']} raised at {case['inject']} left the library as {real[0]}"
     for ln in real:
         if ln.startswith(("escape", "hang", "loop", "harness-exc")):
             return f"{ln} (entry point {case['mode']})"
@@ -184,6 +308,8 @@ def oracle(case: dict, real: list[str]) -> str | None:
 
 
 def nontrivial(case: dict, real: list[str]) -> str | None:
+    if "inject" in case:
+        return None if real == ["no-hook"] else f"inject/{case['inject']}"
     if any(ln.startswith("err") for ln in real):
         kinds = sorted({ln for ln in real if ln.startswith("err")})
         return f"{sers.recv_spec(case['spec'])['k']}/{case['mode']}/" + "+".join(k.split()[1] for k in kinds)
@@ -193,6 +319,8 @@ def nontrivial(case: dict, real: list[str]) -> str | None:
 
 
 def shrink(case: dict):
+    if "inject" in case:
+        return
     data = bytes.fromhex(case["data"])
     n = len(data)
     if n > 1:
@@ -206,6 +334,8 @@ def shrink(case: dict):
 
 
 def known_key(case: dict, real: list[str], why: str) -> str:
+    if "inject" in case:
+        return f"inject={case['inject']},exc={case['exc']}"
     bad = next((ln for ln in real if ln.startswith(("escape", "hang", "loop", "harness-exc"))), "items")
     return f"k={sers.recv_spec(case['spec'])['k']},what={bad.replace(' ', ':')}"
 
@@ -287,6 +417,22 @@ def _extreme(rng, spec: dict) -> bytes:
     return b"1e" + b"9" * min(n - 4, 400) + b"\n"
 
 
+def _injection_cases() -> list[dict]:
+    """every (pipeline, alphabet class) pair for which a public injection hook exists"""
+    from translate import exc_tables
+    out = []
+    for p in exc_tables._pipelines():
+        for a in p["alphabet"]:
+            out.append({"inject": p["name"], "exc": a})
+    return out
+
+
+def tie_problems(stats) -> list[str]:
+    from translate import exc_tables
+    bad = exc_tables.outside_alphabet(RAISED)
+    return [f"exception classes raised by the wrapped libraries outside the declared alphabet: {bad}"] if bad else []
+
+
 def corpus() -> list[dict]:
     js = {"k": "json", "use_lines": True, "limit": 65536}
     jr = {"k": "json", "use_lines": False, "limit": 65536}
@@ -298,7 +444,7 @@ def corpus() -> list[dict]:
     b64 = {"k": "b64", "inner": js, "alphabet": "urlsafe", "checksum": True, "separator": "0d0a", "limit": 65536}
     for mode in ("oneshot", "copy", "buffered"):
         out.append({"spec": b64, "mode": mode, "data": b"!!!!\r\nQUJD\r\n====\r\n".hex(), "cuts": [3], "hint": 8, "origin": "random"})
-    return out
+    return out + _injection_cases()
 
 
 def generate(rng, tier: str, boost: int):
